@@ -90,9 +90,9 @@ def tracker_causes(ev: list[dict]) -> dict:
     return {"stored": {k: sorted(v) for k, v in stored.items()}, "cut": sorted(cut)}
 
 
-def observe_ir(chk: Check, docs: list[dict], label: str) -> list[dict]:
+def observe_ir(chk: Check, docs: list[dict], label: str, env: dict | None = None) -> list[dict]:
     jobs = [{"id": f"{label}_{j}", "spec": concretise.graph_doc(d, use_all=(j % 2 == 0)), "declared": list(d["order"]), "want": ["ir", "events"], "timeout": 60} for j, d in enumerate(docs)]
-    res = core.parallel_py(chk.scratch, "harness.w_parse", jobs)
+    res = core.parallel_py(chk.scratch, "harness.w_parse", jobs, env=env)
     traces = []
     for d, j, r in zip(docs, jobs, res):
         if r["err"] != "none":
@@ -319,6 +319,15 @@ def run(chk: Check) -> None:
     hdocs = [dict(d, markers=True) for d in docs if d["edges"] and all(e["from"] == "H" for e in d["edges"]) and {e["to"] for e in d["edges"]} <= {"FooBar", "Foo_Bar"}]
     chk.require(len(hdocs) >= 60, "colliding-schema-name family too small")
     judge(chk, observe_import(chk, hdocs, "imp[namecollide]"), "import[namecollide]")
+    # accumulation inside ONE document: many array-of-inline-object schemas (each parsed twice) before a chain of named schemas that is
+    # first entered three references deep - whatever the parser counts while it walks must be back at rest before the chain is reached
+    for limit, n in ((40, 45), (150, 160)) if thorough else ((40, 45),):
+        names = ["L"] + [f"R{i:03d}" for i in range(n)] + ["H", "M1", "M2", "M3"]
+        edges = [{"from": f"R{i:03d}", "kind": "arrInline", "to": "L", "req": False} for i in range(n)]
+        edges += [{"from": "H", "kind": "ref", "to": "M1", "req": False}, {"from": "M1", "kind": "ref", "to": "M2", "req": False}, {"from": "M2", "kind": "ref", "to": "M3", "req": False},
+                  {"from": "M3", "kind": "arr", "to": "L", "req": False}, {"from": "M3", "kind": "inline", "to": "L", "req": True}]
+        big = {"order": names, "edges": edges, "inhcycle": False}
+        judge(chk, observe_ir(chk, [big, dict(big, order=names[:1] + names[-4:] + names[1:-4])], f"ir[many,{limit}]", env={"PYOPENAPI_MAX_DEPTH": str(limit)}), f"ir[many,limit={limit}]")
     if thorough:
         docs = gen_graphs(chk, ["A", "B", "C"], ["ref", "arr", "inline", "map", "oneOf", "allOf"], 3, req=(False,))
         judge(chk, observe_ir(chk, docs, "ir[A+B+C,3]"), "ir[A+B+C,<=3]")
